@@ -1130,3 +1130,105 @@ fn c11_rd_small_deferring_established() {
     core::mem::forget(out);
     core::mem::forget(rd);
 }
+
+fn popcount3(m: u8) -> usize {
+    (m & 1) as usize + ((m >> 1) & 1) as usize + ((m >> 2) & 1) as usize
+}
+
+/// Output-count oracle: the output vector is never dereferenced (reading elements that were
+/// pushed under a symbolic length is what makes the full oracle run out of memory); only its
+/// LENGTH is compared with the reference machine: one FamilyDeferralComplete per family that
+/// stops being listed, plus StartDeferralTimer / EndDeferral where the reference emits them.
+fn rd_count_step(rk: u8, kin: u8, peers: usize, fam_limit: u8) -> (RK, RK) {
+    let m0 = [
+        { let m = any_mask(); kani::assume(m < fam_limit); m },
+        { let m = any_mask(); kani::assume(m < fam_limit); m },
+        if peers > 2 { let m = any_mask(); kani::assume(m < fam_limit); m } else { 0 },
+    ];
+    kani::assume(rk == 2 || (m0[0] | m0[1] | m0[2]) != 0);
+    let st = match rk {
+        0 => RestartingInner::AwaitingStart {
+            pending: build_pending(m0),
+            duration: None,
+        },
+        1 => RestartingInner::Deferring {
+            pending: build_pending(m0),
+        },
+        _ => RestartingInner::Completed,
+    };
+    let k0 = rkind(&st);
+    let pre = if k0 == RK::Completed { [0u8; 3] } else { m0 };
+    let mut rd = RestartingDeferral { state: st };
+    let pi: u8 = kani::any();
+    kani::assume((pi as usize) < peers || pi == 3);
+    let addr = if pi < 3 {
+        peer(pi as usize)
+    } else {
+        IpAddr::V4(std::net::Ipv4Addr::new(192, 0, 2, 9))
+    };
+    let g = any_mask();
+    kani::assume(g < fam_limit);
+    let input = match kin {
+        0 => RestartingInput::PeerEstablished(addr, fams_vec(g)),
+        _ => RestartingInput::PeerWithdrawn(addr),
+    };
+    let out = rd.process(input);
+    let n_out = out.len();
+    let k1 = rkind(&rd.state);
+    let (post, bad) = pending_masks(&rd.state);
+    assert!(!bad);
+    // reference machine
+    let mut want = pre;
+    let mut timer = 0usize;
+    let known = pi < 3 && pre[pi as usize] != 0;
+    if k0 != RK::Completed && known {
+        let p = pi as usize;
+        if kin == 0 && g != 0 {
+            want[p] = g;
+            if k0 == RK::Awaiting {
+                timer = 1;
+            }
+        } else {
+            want[p] = 0;
+        }
+    }
+    assert!(post[0] == want[0] && post[1] == want[1] && post[2] == want[2]);
+    let listed_pre = pre[0] | pre[1] | pre[2];
+    let listed_post = want[0] | want[1] | want[2];
+    let released = popcount3(listed_pre & !listed_post);
+    let end = if k0 != RK::Completed && listed_post == 0 { 1 } else { 0 };
+    assert!((k1 == RK::Completed) == (listed_post == 0));
+    assert!(n_out == released + timer + end);
+    core::mem::forget(out);
+    core::mem::forget(rd);
+    (k0, k1)
+}
+
+//@ id=C11 tier=off cap=3600 mem=40
+//@ fn: gr::RestartingDeferral::process (Deferring + PeerEstablished), complete_for, remove_peer, finish_deferring
+//@ bound: REDUCED universe: peers {a,b} (+ unknown), families {v4,v6}; pending = any map; PeerEstablished(any of them, any family subset incl. empty); unwind 5
+//@ desc: post-state equals the reference set-machine and the NUMBER of outputs equals (families that stop being listed) + (timer start) + (EndDeferral) - the output list itself is not dereferenced (see rd_count_step)
+#[kani::proof]
+#[kani::unwind(5)]
+fn c11_rd_count_deferring_established() {
+    let (_k0, k1) = rd_count_step(1, 0, 2, 4);
+    kani::cover!(k1 == RK::Deferring);
+    kani::cover!(k1 == RK::Completed);
+}
+
+//@ id=C11 tier=off cap=3600 mem=40
+//@ fn: gr::RestartingDeferral::process (Deferring / AwaitingStart + PeerWithdrawn, AwaitingStart + PeerEstablished)
+//@ bound: REDUCED universe as above; unwind 5
+//@ desc: as c11_rd_count_deferring_established for the other peer-level transitions
+#[kani::proof]
+#[kani::unwind(5)]
+fn c11_rd_count_other() {
+    let k: u8 = kani::any();
+    kani::assume(k < 3);
+    let (_k0, k1) = match k {
+        0 => rd_count_step(1, 1, 2, 4),
+        1 => rd_count_step(0, 0, 2, 4),
+        _ => rd_count_step(0, 1, 2, 4),
+    };
+    kani::cover!(k1 == RK::Completed);
+}
